@@ -442,8 +442,49 @@ chunk_case(long idx)
 	gen_chunked(&r, &b, &m, big, sl, dl, &nch);
 	size_t total = 0;
 	for (int i = 0; i < nch; i++) total += dl[i];
+	// (a stream of its own for the later additions: the cases above stay what they were)
+	vf_rng r2;
+	vf_rng_seed(&r2, vf_seed ^ 0xC16C0DEC5ULL, (uint64_t) idx);
+	if (vf_chance(&r2, 1, 12)) what = 10;
 
-	if (what <= 3) {
+	if (what == 10) {
+		// line terminator rules: a CR that is not followed by LF (size line,
+		// last line of the trailer section), a size line that ends in a bare LF
+		int    which = (int) vf_below(&r2, (uint32_t) (nch + 1));
+		size_t at    = sl[which];
+		size_t cr    = at;
+		while (cr < b.n && b.p[cr] != '\r') cr++;
+		if (cr + 1 >= b.n) vf_harness_fail("chunk generator: size line without CRLF idx=%ld", idx);
+		maxsz = 1 << 20;
+		int v = (int) vf_below(&r2, 4);
+		if (v == 2 && b.p[at + line_len(&b, at)] != '\r') v = 0; // (an extension would swallow the LF as a bad extension character)
+		switch (v) {
+		case 0: {
+			static const char repl[] = "X\r0 \t;a";
+			kind          = "size-cr-no-lf";
+			must          = RJ_CRLF;
+			b.p[cr + 1]   = (uint8_t) repl[vf_below(&r2, (uint32_t) sizeof(repl) - 1)];
+			break;
+		}
+		case 1:
+			kind = "size-cr-cr-lf";
+			must = RJ_CRLF;
+			bb_splice(&b, cr, 0, "\r", 1);
+			break;
+		case 2:
+			kind = "size-lf-only";
+			must = RJ_NONHEX;
+			bb_splice(&b, cr, 1, "", 0);
+			break;
+		default: {
+			static const char repl[] = "X\r0 :a";
+			kind          = "trailer-cr-no-lf";
+			must          = RJ_CRLF;
+			b.p[b.n - 1]  = (uint8_t) repl[vf_below(&r2, (uint32_t) sizeof(repl) - 1)];
+			break;
+		}
+		}
+	} else if (what <= 3) {
 		// valid, possibly with a limit that fits and trailing bytes
 		if (vf_chance(&r, 1, 2)) maxsz = total + vf_below(&r, 3) + (total == 0 ? 1 : 0);
 		if (vf_chance(&r, 1, 3)) {
@@ -561,7 +602,9 @@ chunk_case(long idx)
 		} else {
 			vf_stat("chunk_valid_equal", 1);
 		}
-	} else if (ref.verdict == REF_REJECT && ref.reason >= RJ_EMPTY_SIZE && ref.reason <= RJ_DATA_TERM) {
+	} else if (ref.verdict == REF_REJECT && ref.reason >= RJ_EMPTY_SIZE && ref.reason <= RJ_CRLF) {
+		// (RJ_CRLF: the line that carries the chunk size, or the one that ends
+		// the body, has a CR that is not followed by LF)
 		if (whole.rv == 0 || whole.rv == NNG_EAGAIN) {
 			vf_violation("C16/chunk-rule/accepted", "%s stream (%s) of %zu bytes: reference rejects, nng returned %d (%s) after %zu bytes",
 			    kind, rj_names[ref.reason], len, whole.rv, nng_strerror(whole.rv), whole.consumed);
@@ -576,6 +619,10 @@ chunk_case(long idx)
 	if (must > 0 && ref.verdict != REF_REJECT) {
 		// generator and reference disagree: harness bug
 		vf_harness_fail("chunk generator: %s mutant not rejected by the reference (verdict %d) idx=%ld", kind, ref.verdict, idx);
+	}
+	if (what == 10) {
+		if (ref.reason < RJ_EMPTY_SIZE || ref.reason > RJ_CRLF) vf_harness_fail("chunk generator: %s mutant: reference reason %s idx=%ld", kind, rj_names[ref.reason], idx);
+		vf_stat("chunk_crlf_rule_cases", 1);
 	}
 	vf_class("chunk/%s/ref=%s/%s/rv=%d", kind, ref.verdict == REF_OK ? "ok" : ref.verdict == REF_MORE ? "more" : "reject", rj_names[ref.reason], whole.rv);
 
@@ -663,6 +710,13 @@ chunk_selftest(void)
 	if (r.verdict != REF_REJECT || r.reason != RJ_DATA_TERM) vf_harness_fail("chunk reference self-test (term)");
 	chunk_ref((const uint8_t *) "5\r\nhel", 6, 0, &r);
 	if (r.verdict != REF_MORE) vf_harness_fail("chunk reference self-test (more)");
+	static const char crx[] = "5\rXhello\r\n0\r\n\r\n", endx[] = "1\r\nx\r\n0\r\n\rX", lfo[] = "5\nhello\r\n0\r\n\r\n";
+	chunk_ref((const uint8_t *) crx, sizeof(crx) - 1, 0, &r);
+	if (r.verdict != REF_REJECT || r.reason != RJ_CRLF) vf_harness_fail("chunk reference self-test (CR without LF in a size line)");
+	chunk_ref((const uint8_t *) endx, sizeof(endx) - 1, 0, &r);
+	if (r.verdict != REF_REJECT || r.reason != RJ_CRLF) vf_harness_fail("chunk reference self-test (CR without LF at the end)");
+	chunk_ref((const uint8_t *) lfo, sizeof(lfo) - 1, 0, &r);
+	if (r.verdict != REF_REJECT || r.reason != RJ_NONHEX) vf_harness_fail("chunk reference self-test (bare LF)");
 }
 
 static void
@@ -1511,6 +1565,11 @@ static const badreq badreqs[] = {
 	{ "header-huge-20k", NULL },
 	{ "target-huge", NULL },
 	{ "header-control-byte", "GET / HTTP/1.1\r\nHost: a\r\nX-A: b\x02" "c\r\n\r\n" },
+	// a request body in chunked transfer coding (not supported by the server:
+	// error status, and the chunk data - a complete request - is not data)
+	{ "te-chunked", NULL },
+	{ "te-chunked+content-length", NULL },
+	{ "te-gzip-chunked", NULL },
 };
 #define NBADREQ ((int) (sizeof(badreqs) / sizeof(badreqs[0])))
 
@@ -1523,6 +1582,17 @@ server_bad_case(long idx, vf_rng *r)
 	size_t        rs, re;
 	if (b->text != NULL) {
 		bb_str(&w, b->text);
+	} else if (!strncmp(b->cls, "te-", 3)) {
+		static const char smuggled[] = "GET /smuggled HTTP/1.1\r\nHost: a\r\n\r\n";
+		bool              both = strstr(b->cls, "content-length") != NULL;
+		bool              gzip = strstr(b->cls, "gzip") != NULL;
+		bb_printf(&w, "POST /te%u HTTP/1.1\r\nHost: a\r\n", vf_below(r, 1000));
+		if (both && vf_chance(r, 1, 2)) bb_printf(&w, "Content-Length: %zu\r\n", vf_chance(r, 1, 2) ? (size_t) 0 : sizeof(smuggled) - 1);
+		bb_printf(&w, "%s: %s\r\n", vf_chance(r, 1, 3) ? "transfer-encoding" : "Transfer-Encoding", gzip ? "gzip, chunked" : vf_chance(r, 1, 3) ? "Chunked" : "chunked");
+		if (both && w.n > 0 && strstr((char *) w.p, "Content-Length") == NULL) bb_printf(&w, "Content-Length: %zu\r\n", vf_chance(r, 1, 2) ? (size_t) 0 : sizeof(smuggled) - 1);
+		bb_str(&w, "\r\n");
+		bb_printf(&w, "%zx\r\n%s\r\n0\r\n\r\n", sizeof(smuggled) - 1, smuggled);
+		vf_stat("http_server_te_requests", 1);
 	} else if (!strcmp(b->cls, "target-huge")) {
 		bb_str(&w, "GET /");
 		for (int i = 0; i < 9000 + (int) vf_below(r, 3000); i++) bb_ch(&w, 'a' + (i % 26));
@@ -1614,6 +1684,7 @@ static nng_http_client *cl_cli;
 static nng_http        *cl_conn;
 static nng_aio         *cl_aio;
 static rpeer            cp = { .fd = -1 };
+static const char      *cl_way = ""; // how the last exchange read the body: key suffix of decode verdicts
 
 static void
 client_up(void)
@@ -1914,6 +1985,7 @@ static int
 client_exchange(ctxn *t, int seg, size_t a, size_t b2, uint64_t key, const char *plan, bb *out)
 {
 	bb_reset(out);
+	cl_way = "";
 	if (cl_conn == NULL) client_connect();
 	nng_http_reset(cl_conn);
 	nng_http_set_method(cl_conn, t->method);
@@ -1981,16 +2053,87 @@ client_exchange(ctxn *t, int seg, size_t a, size_t b2, uint64_t key, const char 
 		const char *cl = nng_http_get_header(cl_conn, "Content-Length");
 		mlen = cl != NULL ? (size_t) strtoul(cl, NULL, 10) : 0;
 		if (mlen > 0) {
-			nng_iov iov;
-			mbody       = malloc(mlen);
-			iov.iov_buf = mbody;
-			iov.iov_len = mlen;
-			nng_aio_set_iov(cl_aio, 1, &iov);
-			nng_http_read_all(cl_conn, cl_aio);
-			nng_aio_wait(cl_aio);
-			rv = nng_aio_result(cl_aio);
-			if (rv == 0 && nng_aio_count(cl_aio) != mlen) {
-				vf_violation("C16/http-client-api/read-all-count", "txn {%s} plan %s: nng_http_read_all of %zu bytes completed with count %zu", t->desc, plan, mlen, nng_aio_count(cl_aio));
+			// three ways to read it (the way is a function of the plan, the
+			// decode must not depend on it): nng_http_read_all into one buffer;
+			// into 2-4 separately allocated buffers of 1, 7, 2, rest bytes;
+			// nng_http_read (completes with whatever is there) until done
+			uint64_t hsh = key ^ (uint64_t) a * 0x9E3779B97F4A7C15ULL ^ (uint64_t) seg * 0xC2B2AE3D27D4EB4FULL;
+			int      way = (int) ((hsh >> 20) % 3);
+			mbody        = malloc(mlen);
+			cl_way       = way == 2 ? "/body-read-with-nng_http_read" : way == 1 && mlen >= 2 ? "/body-read-into-several-buffers" : "";
+			if (way == 2) {
+				size_t have = 0;
+				long   calls = 0;
+				while (have < mlen && rv == 0) {
+					nng_iov iov[2];
+					size_t  want = mlen - have;
+					int     ni   = 1;
+					// sometimes ask for less than is left, sometimes with two buffers
+					if (((hsh >> (calls & 15)) & 3) == 1 && want > 3) want = 1 + (size_t) ((hsh >> 7) % (want - 1));
+					iov[0].iov_buf = mbody + have;
+					iov[0].iov_len = want;
+					if (((hsh >> (calls & 15)) & 3) == 2 && want >= 2) {
+						iov[0].iov_len = 1;
+						iov[1].iov_buf = mbody + have + 1;
+						iov[1].iov_len = want - 1;
+						ni             = 2;
+					}
+					nng_aio_set_iov(cl_aio, (unsigned) ni, iov);
+					nng_http_read(cl_conn, cl_aio);
+					nng_aio_wait(cl_aio);
+					rv = nng_aio_result(cl_aio);
+					size_t c = nng_aio_count(cl_aio);
+					if (rv == 0 && (c == 0 || c > want)) {
+						vf_violation("C16/http-client-api/read-count", "txn {%s} plan %s: nng_http_read of up to %zu bytes completed with count %zu", t->desc, plan, want, c);
+						rv = NNG_EINTERNAL;
+						break;
+					}
+					if (rv == 0) have += c;
+					calls++;
+				}
+				vf_stat("http_client_raw_reads", calls);
+				if (calls > 1) vf_stat("http_client_raw_read_partial", 1);
+			} else if (way == 1 && mlen >= 2) {
+				static const size_t want[4] = { 1, 7, 2, 0 };
+				nng_iov  iov[4];
+				uint8_t *part[4];
+				int      ni = 2 + (int) ((hsh >> 9) % 3);
+				size_t   left = mlen;
+				if ((size_t) ni > mlen) ni = (int) mlen;
+				for (int i = 0; i < ni; i++) {
+					size_t l = i == ni - 1 ? left : want[i];
+					if (l > left - (size_t) (ni - 1 - i)) l = left - (size_t) (ni - 1 - i);
+					part[i]        = malloc(l); // (of its own: writing past one of them is an ASan report)
+					memset(part[i], 0xEE, l);
+					iov[i].iov_buf = part[i];
+					iov[i].iov_len = l;
+					left -= l;
+				}
+				nng_aio_set_iov(cl_aio, (unsigned) ni, iov);
+				nng_http_read_all(cl_conn, cl_aio);
+				nng_aio_wait(cl_aio);
+				rv = nng_aio_result(cl_aio);
+				if (rv == 0 && nng_aio_count(cl_aio) != mlen) {
+					vf_violation("C16/http-client-api/read-all-count", "txn {%s} plan %s: nng_http_read_all of %zu bytes into %d buffers completed with count %zu", t->desc, plan, mlen, ni, nng_aio_count(cl_aio));
+				}
+				size_t o = 0;
+				for (int i = 0; i < ni; i++) {
+					memcpy(mbody + o, part[i], iov[i].iov_len);
+					o += iov[i].iov_len;
+					free(part[i]);
+				}
+				vf_stat("http_client_scatter_reads", 1);
+			} else {
+				nng_iov iov;
+				iov.iov_buf = mbody;
+				iov.iov_len = mlen;
+				nng_aio_set_iov(cl_aio, 1, &iov);
+				nng_http_read_all(cl_conn, cl_aio);
+				nng_aio_wait(cl_aio);
+				rv = nng_aio_result(cl_aio);
+				if (rv == 0 && nng_aio_count(cl_aio) != mlen) {
+					vf_violation("C16/http-client-api/read-all-count", "txn {%s} plan %s: nng_http_read_all of %zu bytes completed with count %zu", t->desc, plan, mlen, nng_aio_count(cl_aio));
+				}
 			}
 		}
 		vf_stat("http_client_manual_exchanges", 1);
@@ -2050,14 +2193,20 @@ client_check(ctxn *t, const char *plan, int rv, bb *got, bb *baseline, bool firs
 		if (got->n != t->expect.n || memcmp(got->p, t->expect.p, got->n) != 0) {
 			size_t o = 0;
 			while (o < got->n && o < t->expect.n && got->p[o] == t->expect.p[o]) o++;
-			vf_violation("C16/http-client-decode/differs-from-reference", "txn {%s}: decoded response differs from what was sent (canonical form differs at offset %zu: got %zu bytes, expected %zu)", t->desc, o, got->n, t->expect.n);
+			char key[128];
+			snprintf(key, sizeof(key), "C16/http-client-decode/differs-from-reference%s", cl_way);
+			vf_violation(key, "txn {%s}: decoded response differs from what was sent (canonical form differs at offset %zu: got %zu bytes, expected %zu)", t->desc, o, got->n, t->expect.n);
 			return false;
 		}
 		vf_stat("http_client_model_equal", 1);
 		return true;
 	}
 	if (got->n != baseline->n || memcmp(got->p, baseline->p, got->n) != 0) {
-		vf_violation("C16/http-client-segmentation/decode-differs", "txn {%s}: response decoded under plan %s differs from the unsplit decode (%zu vs %zu canonical bytes)", t->desc, plan, got->n, baseline->n);
+		size_t o = 0;
+		while (o < got->n && o < baseline->n && got->p[o] == baseline->p[o]) o++;
+		char key[128];
+		snprintf(key, sizeof(key), "C16/http-client-segmentation/decode-differs%s", cl_way);
+		vf_violation(key, "txn {%s}: response decoded under plan %s differs from the unsplit decode (%zu vs %zu canonical bytes, first difference at %zu: 0x%02x vs 0x%02x)", t->desc, plan, got->n, baseline->n, o, o < got->n ? got->p[o] : 0, o < baseline->n ? baseline->p[o] : 0);
 		return false;
 	}
 	return true;
